@@ -21,6 +21,8 @@ pub struct Ctx {
     pub corpus: Vec<crate::corpus::Script>,
     pub verif_dir: PathBuf,
     pub child_runs: AtomicU64,
+    // runs that hung twice in a row (whatever the property makes of them)
+    pub confirmed_hangs: AtomicU64,
     refs: Mutex<HashMap<u64, Arc<RunResult>>>,
 }
 
@@ -33,6 +35,7 @@ impl Ctx {
             corpus,
             verif_dir,
             child_runs: AtomicU64::new(0),
+            confirmed_hangs: AtomicU64::new(0),
             refs: Mutex::new(HashMap::new()),
         }
     }
@@ -44,6 +47,9 @@ impl Ctx {
             // a hang is only believed when it repeats (machine load must not raise alarms)
             self.child_runs.fetch_add(1, Ordering::Relaxed);
             r = exec::run(&self.cfg, worker, program, w, plan);
+            if r.status == Status::Hang {
+                self.confirmed_hangs.fetch_add(1, Ordering::Relaxed);
+            }
         }
         if !r.seam_ok {
             eprintln!("HARNESS-ERROR: sink content differs from the shim's event log (seam incomplete)");
@@ -284,9 +290,11 @@ pub fn run_property(ctx: &Ctx, prop: &dyn Property) -> Summary {
                 };
                 if out.violation.as_ref().map(|v| v.detail.contains("status=hang") || v.observed.contains("status=hang")).unwrap_or(false) {
                     hangs += 1;
-                    if hangs >= 2 {
-                        let _ = std::fs::write(&stop_flag, b"1");
-                    }
+                }
+                // also when the property itself has nothing to say about a hang (C12, C18):
+                // every further hanging case would cost two watchdog periods
+                if hangs >= 2 || ctx.confirmed_hangs.load(Ordering::Relaxed) >= 2 {
+                    let _ = std::fs::write(&stop_flag, b"1");
                 }
                 let mut keep_case = i - first < SAMPLE_WINDOW || dump_all;
                 if let Some(v) = &out.violation {
